@@ -35,40 +35,8 @@ def run(ctx, w):
                 ctx.check(not vb.path_exists(gs.point, pt), "L1", api + ":order:" + cdef, "%s feeds input after the gc ran" % api, loc=w.stmt_loc(api, pt))
     ctx.floor("L1", 2, "entry points")
 
-    # ---- L3 growth => flag -------------------------------------------------------------------
-    ctx.rule("L3", "every buffer method that can lengthen the line vector sets the trim flag on all paths; otherwise each of its callers must")
+    growth_flag_rule(ctx, w, S, R, T, "L3")
     flag = ("arg1", T.flag)
-    growers = {}
-    for fn in sorted(w.bodies):
-        if S._impl_of(fn) != S.buffer_ty or fn in (T.trim_fn, T.buf_gc, S.buffer_ctor):
-            continue
-        grow = [cs for cs in E.call_sites(fn) if not cs.local and (cs.term["callee"].get("decl_name") in ("extend", "insert", "push", "append", "resize", "extend_from_slice", "splice"))
-                and any(p == ("arg1", S.lines_field) for p in cs.W)]
-        assigns = [pt for pt, ps in E.stmt_writes[fn].items() if ("arg1", S.lines_field) in ps]
-        if grow or assigns:
-            growers[fn] = (grow, assigns)
-    sets_flag = {}
-    for fn in growers:
-        sets = [(pt, t) for f2, pt, p, t in w.assign_sites({fn}, lambda p: p == flag)]
-        sets_flag[fn] = flag in w.mustwrite.must(fn) and all(t == ("const", True) for _, t in sets) and bool(sets)
-    pending = {fn for fn in growers if not sets_flag[fn]}
-    for fn in sorted(growers):
-        if sets_flag[fn]:
-            ctx.ok("L3", fn, {"fn": fn, "sets_flag_on_all_paths": True})
-            continue
-        callers = [cs for cs in E.callers_of(fn) if cs.term is not None]
-        bad = []
-        for cs in callers:
-            if S._impl_of(cs.body) != S.buffer_ty:
-                bad.append(cs.body)
-                continue
-            cb = w.body(cs.body)
-            sets = {pt for f2, pt, p, t in w.assign_sites({cs.body}, lambda p: p == flag) if t == ("const", True)}
-            if not cb.every_path_to_return_hits(cs.point, sets):
-                bad.append(cs.body)
-        ctx.check(bool(callers) and not bad, "L3", fn, "%s can lengthen the line vector but neither it nor its caller(s) %s raise the trim flag afterwards on every path: the gc would skip the trim and the scrollback grows beyond the limit" % (fn, bad),
-                  loc=w.fn_loc(fn), sample={"fn": fn, "transferred_to": sorted({c.body for c in callers})})
-    ctx.floor("L3", 3, "growth sites")
 
     # ---- L4 -------------------------------------------------------------------------------------------
     ctx.rule("L4", "the gc consumes the flag and trims; the trim drains ..(size - soft) exactly when size > hard, with size = len - rows, only when a limit is configured")
@@ -230,3 +198,42 @@ def config_plumbing(ctx, w, S, R, rule):
         else:
             ctx.missing_anchor(rule, "limit parameter / field of the terminal")
     ctx.floor(rule, 6, "configuration plumbing obligations")
+
+
+def growth_flag_rule(ctx, w, S, R, T, rule):
+    E = w.E
+    # ---- L3 growth => flag -------------------------------------------------------------------
+    ctx.rule(rule, "every buffer method that can lengthen the line vector sets the trim flag on all paths; otherwise each of its callers must")
+    flag = ("arg1", T.flag)
+    growers = {}
+    for fn in sorted(w.bodies):
+        if S._impl_of(fn) != S.buffer_ty or fn in (T.trim_fn, T.buf_gc, S.buffer_ctor):
+            continue
+        grow = [cs for cs in E.call_sites(fn) if not cs.local and (cs.term["callee"].get("decl_name") in ("extend", "insert", "push", "append", "resize", "extend_from_slice", "splice"))
+                and any(p == ("arg1", S.lines_field) for p in cs.W)]
+        assigns = [pt for pt, ps in E.stmt_writes[fn].items() if ("arg1", S.lines_field) in ps]
+        if grow or assigns:
+            growers[fn] = (grow, assigns)
+    sets_flag = {}
+    for fn in growers:
+        sets = [(pt, t) for f2, pt, p, t in w.assign_sites({fn}, lambda p: p == flag)]
+        sets_flag[fn] = flag in w.mustwrite.must(fn) and all(t == ("const", True) for _, t in sets) and bool(sets)
+    pending = {fn for fn in growers if not sets_flag[fn]}
+    for fn in sorted(growers):
+        if sets_flag[fn]:
+            ctx.ok(rule, fn, {"fn": fn, "sets_flag_on_all_paths": True})
+            continue
+        callers = [cs for cs in E.callers_of(fn) if cs.term is not None]
+        bad = []
+        for cs in callers:
+            if S._impl_of(cs.body) != S.buffer_ty:
+                bad.append(cs.body)
+                continue
+            cb = w.body(cs.body)
+            sets = {pt for f2, pt, p, t in w.assign_sites({cs.body}, lambda p: p == flag) if t == ("const", True)}
+            if not cb.every_path_to_return_hits(cs.point, sets):
+                bad.append(cs.body)
+        ctx.check(bool(callers) and not bad, rule, fn, "%s can lengthen the line vector but neither it nor its caller(s) %s raise the trim flag afterwards on every path: the gc would skip the trim and the scrollback grows beyond the limit" % (fn, bad),
+                  loc=w.fn_loc(fn), sample={"fn": fn, "transferred_to": sorted({c.body for c in callers})})
+    ctx.floor(rule, 3, "growth sites")
+
